@@ -771,6 +771,25 @@ def _mask_only_variant(fl, node, level):
     return None
 
 
+def _reversed_model(node):
+    """The same file model with the insertion order reversed on every level."""
+    out = {}
+    for bk in reversed(list(node)):
+        out[bk] = {}
+        for ck in reversed(list(node[bk])):
+            cat = node[bk][ck]
+            out[bk][ck] = Cat(cat.rows, {k: cat.cols[k] for k in reversed(list(cat.cols))})
+    return out
+
+
+def _touch_all(f):
+    """Force the lazy parsing of every level of a file."""
+    for block in f.values():
+        for category in block.values():
+            for column in category.values():
+                column.as_array()
+
+
 def _prime(container, level):
     """Serialise every column of a binary container once so that the parameters of its encodings
     are resolved (column by column: a category without columns cannot be serialised as a whole)."""
@@ -989,6 +1008,17 @@ def run_history(case, fl):
                     o.check(cont != diff, "equality", f"{where}: != is False for a different container")
                     o.label("eq_with_different", f"eq_perturbation={how}")
                 o.check(not (cont == 5), "equality", f"{where}: == 5")
+                if level == 0 and len(kids) > 0 and not _has_empty_category(node):
+                    # mappings compare regardless of insertion order, and the answer must not
+                    # depend on whether the children have been parsed yet (lazy parsing)
+                    same = fl.roundtrip(_build_from_model(fl, node, 0), op[3] % 2)
+                    perm = fl.roundtrip(_build_from_model(fl, _reversed_model(node), 0), (op[3] // 2) % 2)
+                    o.check(same == perm, "equality_lazy_order_independent", f"{where}: lazily parsed files with permuted insertion order compare unequal")
+                    _touch_all(perm)
+                    o.check(same == perm, "equality_lazy_order_independent", f"{where}: lazy vs parsed file with permuted insertion order compare unequal")
+                    _touch_all(same)
+                    o.check(same == perm and not (same != perm), "equality_lazy_order_independent", f"{where}: parsed files with permuted insertion order compare unequal")
+                    o.label("eq_permuted_lazy")
             elif name == "get_default":
                 o.check(cont.get(MISSING_KEY, sentinel) is sentinel, "missing_key_raises_keyerror", f"{where}: get() with default")
             elif name == "alias":
